@@ -28,6 +28,15 @@ func (g G) Bool(label string) bool { return rapid.Bool().Draw(g.T, label) }
 func (g G) Chance(num, den int, label string) bool {
 	return rapid.IntRange(0, den-1).Draw(g.T, label) < num
 }
+// Rare returns true with probability close to num/den. rapid's integer
+// generators are deliberately biased towards small values, which makes
+// Chance() fire far more often than num/den for small num; Rare mixes the
+// drawn value first.
+func (g G) Rare(num, den uint64, label string) bool {
+	u := rapid.Uint64().Draw(g.T, label)
+	return splitmix64(u^0x5bd1e995)%den < num
+}
+
 func (g G) U64(lo, hi uint64, label string) uint64 {
 	return rapid.Uint64Range(lo, hi).Draw(g.T, label)
 }
@@ -65,7 +74,7 @@ var plainNames = []string{"a", "b", "c", "d", "e", "f", "dir", "src", "lib", "x.
 var hostileNames = []string{"a b", " lead", "trail ", "q\"uote", "it's", "back\\slash", "co:lon", "[1]", "[2] x", "tab\there", "new\nline", "cr\rx", "\x01ctl", "\x7f", "\xff\xfe", "caf\xc3\xa9", "*", "?", "|pipe", "$(x)", "`x`", "~", "^", "@{", "-dash", "--include", "..x", "x..", "a\\", "{}", "<>", "&", ";", "#", "%s", "%d", "\xe2\x88\x9e", ".gitmodules", "x]", "(p)", "^{tree}", "~1"}
 
 func (g G) entryName(style int, long bool) string {
-	if long && g.Chance(1, 60, "giantname") {
+	if long && g.Rare(1, 80, "giantname") {
 		// legal in a tree object, far beyond any buffer: the path that
 		// `git rev-list --objects` prints for it exceeds 64 KiB
 		return strings.Repeat("G", g.PickInt([]int{65494, 65495, 65496, 70000, 140000}, "giantlen"))
